@@ -5,6 +5,7 @@ import (
 	"regexp"
 	"unicode/utf8"
 
+	"github.com/benhoyt/goawk/internal/ast"
 	"github.com/benhoyt/goawk/internal/compiler"
 	"github.com/benhoyt/goawk/internal/resolver"
 )
@@ -238,5 +239,32 @@ func VerifC10Sub() {
 	verifAssert(sout == wantS && (sn == 1) == (len(locs) > 0) && sn <= 1, "sub does not perform exactly the first of gsub's replacements")
 	if repl == "&" {
 		verifAssert(gout == in, "gsub(r, \"&\", t) changed t")
+	}
+}
+
+// every dynamically compiled regex is leftmost-longest, whatever the state of the regex cache
+func VerifC10LongestAlways() {
+	p := verifBuiltinInterp(false)
+	p.arrays = []map[string]value{{}}
+	fill := []int{0, maxCachedRegexes - 1, maxCachedRegexes, maxCachedRegexes + 5}[verifIntRange(0, 3)]
+	for i := 0; i < fill; i++ {
+		_, err := p.compileRegex("r" + verifItoa(i))
+		verifAssert(err == nil, "compileRegex failed")
+	}
+	switch verifIntRange(0, 3) {
+	case 0:
+		p.push(str("xabcab"))
+		p.push(str("ab|abc"))
+		verifAssert(p.callBuiltin(compiler.BuiltinMatch) == nil && p.matchStart.n == 2 && p.matchLength.n == 3, "match with a dynamic regex is not leftmost-longest")
+	case 1:
+		out, n, err := p.sub("ab|abc", "<&>", "abcabc", true)
+		verifAssert(err == nil && n == 2 && out == "<abc><abc>", "gsub with a dynamic regex is not leftmost-longest")
+	case 2:
+		n, err := p.split("1abc2ab3", resolver.Global, 0, "ab|abc", true, DefaultMode)
+		verifAssert(err == nil && n == 3 && p.arrays[0]["2"].s == "2", "split with a dynamic regex is not leftmost-longest")
+	default:
+		verifAssert(p.setSpecial(ast.V_FS, str("ab|abc")) == nil, "FS rejected")
+		p.setLine("1abc2", false)
+		verifAssert(p.getField(2).s == "2", "FS regex is not leftmost-longest")
 	}
 }
